@@ -104,7 +104,7 @@ def acceptable(r, new_sha=None):
 def run_c16(out, tier, rng):
     bases = archives() if tier == "thorough" else archives()[:2]
     for base in bases:
-        for op, extra in (("save", {"edit": 3}), ("import", {"audio": audio_files()}), ("read", {})):
+        for op, extra in (("save", {"edit": 3}), ("import", {"audio": audio_files()}), ("import", {"audio": []}), ("import", {"audio": audio_files()[:1]}), ("read", {})):
             for dest in (("absent", "existing") if op != "read" else ("existing",)):
                 flag = "true" if dest == "existing" else "default"
                 clean = child(dict({"op": op, "base": base, "dest": dest, "flag": flag, "fault": None}, **extra))
@@ -200,6 +200,13 @@ def run_c17(out, tier, rng):
             out.violations.append({"oracle": "save / re-import / save history completes", "spec": desc(r["spec"]), "error": r.get("harness_error") or r.get("exception")})
         elif sc["error"] or sc["first"] != 1500 or sc["second"] != 2750 or sc["new_sound"] != 640:
             out.violations.append({"oracle": "a PlayWav without explicit duration gets the CURRENT file's true duration on every save (1500, then 2750 after the sound was replaced, 640 for the newly imported one)", "spec": desc(r["spec"]), "got": sc})
+        r = child({"op": "scenario_explicit_duration", "base": base, "dest": "absent", "flag": "default", "fault": None})
+        sc = r.get("scenario")
+        out.case("c17:history-explicit-duration", json.dumps(desc(r["spec"]), sort_keys=True).encode(), sample={"spec": desc(r["spec"]), "result": sc})
+        if sc is None:
+            out.violations.append({"oracle": "import + authored PlayWav + save completes", "spec": desc(r["spec"]), "error": r.get("harness_error") or r.get("exception")})
+        elif sc["error"] or sc["got"] != sc["want"]:
+            out.violations.append({"oracle": "an authored PlayWav keeps its explicit duration (0 ms included) and gets the file's duration only when it has none", "spec": desc(r["spec"]), "got": sc})
         for free in ([0], [0, 2], [1, 3]):
             r = child({"op": "scenario_sparse_wav", "base": base, "dest": "absent", "flag": "default", "fault": None, "free_slots": free})
             sc = r.get("scenario")
